@@ -661,6 +661,80 @@ example :
      | (.ok tm, r) => some (tm, r.pos, r.calls)
      | (.error _, _) => none) = some ([⟨5, 9, [0x61]⟩], 78, 2) := by decide +kernel
 
+/-- **`kd_v3_additional_data`, interpreted, is the greedy range of `blockElem`** — for EVERY reader state: the
+    declaration bound to `kd_v3_additional_data` (`GreedyRange(Struct('tag' / Bytes(8), 'data' / Select(Aligned(8,
+    Prefixed(Int64ul, GreedyBytes)), Prefixed(Int64ul, GreedyBytes))))`), run by `Con.parse` and read as the list of
+    (tag, data) pairs, is `greedyRange blockElem` with the fuel the policy gives at the reader it starts on: the same
+    blocks, the same reader (the aligned alternative first, the rewind and the unaligned alternative when its padding
+    read is short, the rewind of the whole range behind the last good block).  With the policy of `tailV3`
+    (`rest / 16 + 2`) this is literally the term `tailV3` / the reader tie's primitive use. -/
+theorem kd_v3_additional_data_decl_eq_model (env : PyIRCn.Env) (ctx : List (String × PyIRCn.CVal)) (r : Reader) :
+    PyIRCn.project PyIRCn.CVal.toBlocks ((Gen.PyIRCn.module.decl "kd_v3_additional_data").parse env ctx) r =
+      greedyRange blockElem (env.fuel r) r := by
+  rw [decl_source_is_expected_ir.1, PyIRCn.decl_kd_v3_additional_data, PyIRCn.project_kd_v3_additional_data]
+
+/-- one element of the range: the interpreted `Struct` is `blockElem` (as a `Container` of `tag` and `data`). -/
+theorem block_struct_decl_value (env : PyIRCn.Env) (ctx : List (String × PyIRCn.CVal)) :
+    PyIRCn.Expected.blockStruct.parse env ctx = PyIRCn.mapRM PyIRCn.blockToCVal blockElem :=
+  PyIRCn.parse_blockStruct env ctx
+
+/-- the fuel policy of the version-3 tie: what `tailV3` gives its range; on a private sub-stream of `n` bytes it is
+    `n / 16 + 2 ≥ n / 32 + 1`. -/
+def declEnv (plist : Bytes → Option PView) : PyIRCn.Env := ⟨plist, fun r => r.rest.length / 16 + 2⟩
+
+theorem declEnv_fuel (plist : Bytes → Option PView) (b : Bytes) :
+    b.length / 32 + 1 ≤ (declEnv plist).fuel (Reader.ofBytes b) := by
+  show b.length / 32 + 1 ≤ (List.drop 0 b).length / 16 + 2
+  simp only [List.drop_zero]; omega
+
+/-- **`parse_v3` rests on the declarations**: the hand model `parseV3` (= the interpreted `parse_v3`, by
+    `parse_is_interpreted_source`) with its three construct primitives replaced by the interpreted declarations —
+    `Aligned(8, kd_header_v3)`, `kd_v3_threadmap` behind the two scans, `kd_v3_additional_data` behind
+    `reader.seek(-8, 1)`. -/
+theorem parse_v3_rests_on_declarations {ε : Type} (plist : Bytes → Option PView) (dec : Bytes → Except PyErr ε)
+    (prior : PState) (r : Reader) :
+    parseV3 plist dec prior r =
+      match aligned 8 (PyIRCn.project PyIRCn.CVal.toHeaderV3
+          ((Gen.PyIRCn.module.decl "kd_header_v3").parse (declEnv plist) [])) r with
+      | (.error e, r1) => ⟨[], some e, prior.tables, prior.tables, prior.md, r1⟩
+      | (.ok h, r1) =>
+        match (do
+            let _ ← readPlain (8 - Gen.Consts.RAW_VERSION_SIZE)
+            seekUntil Gen.Consts.TRACEV3_STACKSHOT_END
+            seekUntil Gen.Consts.TRACEV3_THREADMAP_TAG
+            PyIRCn.project PyIRCn.CVal.toThreadmapV3
+              ((Gen.PyIRCn.module.decl "kd_v3_threadmap").parse (declEnv plist) [])) r1 with
+        | (.error e, r2) => ⟨[], some e, prior.tables, prior.tables, { prior.md with header := some h }, r2⟩
+        | (.ok tm, r2) =>
+          let t := setThreadMap prior.tables tm
+          let q := chunkLoop dec (r2.rest.length / 16 + 2) r2
+          match q.2.1 with
+          | some e => ⟨q.1.map .ev, some e, t, t, { prior.md with header := some h }, q.2.2⟩
+          | none =>
+            match PyIRCn.project PyIRCn.CVal.toBlocks
+                ((Gen.PyIRCn.module.decl "kd_v3_additional_data").parse (declEnv plist) [])
+                (q.2.2.seekTo (q.2.2.pos - 8)) with
+            | (.error e, r4) => ⟨q.1.map .ev, some e, t, t, { prior.md with header := some h }, r4⟩
+            | (.ok blocks, r4) => tailOfBlocks plist q.1 t { prior.md with header := some h } blocks r4 := by
+  have h1 := header_v3_call_site (declEnv plist) []
+  have h2 := threadmap_v3_call_site (declEnv plist) [] (declEnv_fuel plist)
+  rw [← h1, ← h2]
+  simp only [kd_v3_additional_data_decl_eq_model]
+  rfl
+
+/-- non-vacuity: two blocks — the first aligned (5-byte payload + 3 bytes of alignment), the second at the end of the
+    stream with no room for its alignment (the `Select` falls back to the unaligned alternative) — then 3 stray bytes:
+    both blocks are delivered and the reader is rewound behind the second one (position 42). -/
+example :
+    (match PyIRCn.project PyIRCn.CVal.toBlocks
+        ((Gen.PyIRCn.module.decl "kd_v3_additional_data").parse (declEnv EndToEnd.noPlist) [])
+        (Reader.ofBytes ([1, 2, 3, 4, 5, 6, 7, 8] ++ [5, 0, 0, 0, 0, 0, 0, 0] ++ [9, 9, 9, 9, 9] ++ [0, 0, 0] ++
+          [8, 7, 6, 5, 4, 3, 2, 1] ++ [2, 0, 0, 0, 0, 0, 0, 0] ++ [0xaa, 0xbb] ++ [1, 2, 3])) with
+     | (.ok bs, r) => some (bs, r.pos)
+     | (.error _, _) => none) =
+    some ([([1, 2, 3, 4, 5, 6, 7, 8], [9, 9, 9, 9, 9]), ([8, 7, 6, 5, 4, 3, 2, 1], [0xaa, 0xbb])], 42) := by
+  decide +kernel
+
 /-- twelve fields 1 … 12, a 3-byte payload, then one more byte -/
 def exDeclHeaderV3 : Bytes :=
   [1, 0, 0, 0] ++ [2, 0, 0, 0] ++ [3, 0, 0, 0, 0, 0, 0, 0] ++ [4, 0, 0, 0] ++ [5, 0, 0, 0] ++ [6, 0, 0, 0, 0, 0, 0, 0] ++
